@@ -97,7 +97,7 @@ def check_ast(ast, acc, case):
             acc.states.add(t)
             acc.trans.add((prev, t))
             prev = t
-    for route, res in (('fresh compiler', got), ('compiler that compiled other documents before', P.compile_reused(ast))):
+    for route, res in P.routes(ast, got):
         if res[0] != 'ok':
             acc.violation('compile-exception', case, 'Compiler.compile (%s) raised %s' % (route, res[1]))
             return
